@@ -239,6 +239,24 @@ fn main() {
     ()
 }
 "#, "2\n"),
+    ("regrouped-tuples", r#"fn keep[T](x: T) -> T { x }
+fn second[T](x: T, n: int32) -> int32 { n }
+fn main() {
+    let a: ((int32, int32), int32, int32) = ((1, 2), 3, 4);
+    let b: ((int32, int32, int32), int32) = ((5, 6, 7), 8);
+    let a2 = keep(a);
+    let b2 = keep(b);
+    let _ = string_println(int32_to_string((a2.0).1 + a2.2));
+    let _ = string_println(int32_to_string((b2.0).2 + b2.1));
+    let va: Vec[((int32, int32), int32, int32)] = vec_push(vec_new(), a);
+    let vb: Vec[((int32, int32, int32), int32)] = vec_push(vec_new(), b);
+    let _ = string_println(int32_to_string(vec_len(keep(va)) + vec_len(keep(vb)) + second(va, 1) + second(vb, 2)));
+    let ra: Ref[(int32, (int32, int32))] = ref((1, (2, 3)));
+    let rb: Ref[((int32, int32), int32)] = ref(((4, 5), 6));
+    let _ = string_println(int32_to_string((ref_get(keep(ra)).1).0 + ref_get(keep(rb)).1));
+    ()
+}
+"#, "6\n15\n5\n8\n"),
 ];
 
 // ------------------------------------------------ extern "go" bindings (C02)
